@@ -1,0 +1,48 @@
+//go:build verif
+
+package sourcerunner
+
+import (
+	"context"
+
+	"reduction.dev/reduction-protocol/handlerpb"
+	"reduction.dev/reduction/batching"
+	"reduction.dev/reduction/proto"
+	"reduction.dev/reduction/proto/workerpb"
+)
+
+// VerifSender drives SourceRunner.sendOperatorEvent (the send side of the runner's output stream) for the
+// verification harness (build tag verif only): keyed-event placeholders are resolved with the given batches,
+// watermark placeholders are stamped and broadcast exactly as in the event loop.
+type VerifSender struct {
+	r      *SourceRunner
+	cancel context.CancelFunc
+}
+
+func VerifNewSender(keyGroupCount int, operators []proto.Operator) *VerifSender {
+	ctx, cancel := context.WithCancel(context.Background())
+	r := New(NewParams{})
+	r.operators = newOperatorCluster(ctx, &newClusterParams{
+		keyGroupCount:  keyGroupCount,
+		operators:      operators,
+		batchingParams: batching.EventBatcherParams{MaxSize: 1},
+		errChan:        make(chan error, 16),
+	})
+	r.keyEventChannel = &batching.ReorderFetcher[[]byte, []*handlerpb.KeyedEvent]{
+		Output: make(chan []*handlerpb.KeyedEvent, 1),
+	}
+	return &VerifSender{r: r, cancel: cancel}
+}
+
+// SendKeyed sends one keyed-event placeholder whose async result is the given batch.
+func (s *VerifSender) SendKeyed(batch []*handlerpb.KeyedEvent) error {
+	s.r.keyEventChannel.Output <- batch
+	return s.r.sendOperatorEvent(&workerpb.Event{Event: &workerpb.Event_KeyedEvent{}})
+}
+
+// SendWatermark sends one watermark placeholder.
+func (s *VerifSender) SendWatermark() error {
+	return s.r.sendOperatorEvent(&workerpb.Event{Event: &workerpb.Event_Watermark{Watermark: &workerpb.Watermark{}}})
+}
+
+func (s *VerifSender) Close() { s.cancel() }
